@@ -51,6 +51,17 @@ func (c *compiler) compileChange(achange *parse.Change) *Change {
 	matcher := mc.compileFile(achange.Patch.Minus)
 	replacer := rc.compileFile(achange.Patch.Plus)
 
+	for _, mi := range matcher.Imports.Imports {
+		for _, ri := range replacer.Imports.Imports {
+			if mi.Path == ri.Path && mi.NameS == ri.NameS {
+				if replacer.Imports.Kept == nil {
+					replacer.Imports.Kept = make(map[string]bool)
+				}
+				replacer.Imports.Kept[mi.Path] = true
+			}
+		}
+	}
+
 	ldots := mc.dots
 	rdots := rc.dots
 	err := connectDots(c.fset, ldots, rdots, rc.dotAssoc)
